@@ -202,3 +202,24 @@ def simple_value():
       st.integers(-99, 99).map(repr), st.sampled_from(['True', 'None', '1.5', "'s'", '"t u"']),
       st.lists(st.integers(0, 9), max_size=3).map(repr),
       st.sampled_from(["{'k': 1}", '(1, 2)', "[1, ['a']]", '()']))
+
+
+def unorderable_keys(x):
+  """True if some dict in value `x` has two keys of one type that cannot be compared.
+
+  pprint (used by gin.config_str) orders such keys by id(), i.e. by memory address, so the text of
+  a config string holding such a dict is not a function of the value — a CPython pprint property,
+  not Gin's.  Checks that compare config strings treat such values as out of domain."""
+  if isinstance(x, dict):
+    keys = list(x)
+    for i, a in enumerate(keys):
+      for b in keys[i + 1:]:
+        if type(a) is type(b):
+          try:
+            a < b  # pylint: disable=pointless-statement
+          except TypeError:
+            return True
+    return any(unorderable_keys(k) or unorderable_keys(v) for k, v in x.items())
+  if isinstance(x, (list, tuple)):
+    return any(unorderable_keys(i) for i in x)
+  return False
